@@ -468,3 +468,8 @@ MUTANTS = [
 _m38 = [m for m in MUTANTS if m['id'] == 'm38'][0]
 _m38['edits'] = [('src/lib/comp/comp.c', _m38['old'], _m38['new']),
                        ('src/lib/comp/comp.c', '#include <math.h>\n', '#include <math.h>\n#include <time.h>\n')]
+
+
+# SESSION7 additions to the claim (clauses added in DESIGN section 12)
+CLAIM['technique'] += '; segmentation-taint slice of the chunk-end decision (backward data/control slice inside the automatic loop; call-local sizes and positions are taint sources)'
+CLAIM['text'] += ' C16-i: the decision where an automatic chunk ends reads only content, context state and the bytes of the chunk so far - never the size of the write call or the position inside its buffer.'
